@@ -13,18 +13,43 @@ use vkit::*;
 //    in `property()`: sqrt(d2) <= R  <=>  d2 <= R^2 for integers d2 <= 1.2e7, R < 4096.
 // ---------------------------------------------------------------------------------------------
 
-struct IntRound<const N: usize> {
-    c: [i64; N],
-    p: [i64; N],
-    r: i64,
-    r1: i64,
-    r2: i64,
-    d2: i64,
+pub(crate) struct IntRound<const N: usize> {
+    pub(crate) c: [i64; N],
+    pub(crate) p: [i64; N],
+    pub(crate) r: i64,
+    pub(crate) r1: i64,
+    pub(crate) r2: i64,
+    pub(crate) d2: i64,
 }
 
 const GRID: i64 = 1000;
 
 fn gen_int_round<const N: usize>(t: &mut Tape, cx: &mut Cx) -> IntRound<N> {
+    gen_int_round_opt(t, cx, true)
+}
+
+/// Labels and the non-triviality rule of an integer containment configuration (distance^2 `d2`, radius `r`,
+/// `offnz` non-zero offset components).
+pub(crate) fn label_verdict(cx: &mut Cx, d2: i128, r: i128, r1: i128, r2: i128, offnz: usize) {
+    let fl = crate::isqrt_floor128(d2);
+    if d2 == r * r {
+        cx.label("tangent (d == r exactly)");
+    } else if d2 < r * r {
+        cx.label(if r - fl <= 1 { "just inside (r = floor(d)+1)" } else { "inside" });
+    } else {
+        cx.label(if fl - r <= 1 { "just outside (r = floor(d) or floor(d)-1)" } else { "outside" });
+    }
+    if r == 0 {
+        cx.label("zero radius");
+    }
+    if r1 == 0 || r2 == 0 {
+        cx.label("collision: one radius zero");
+    }
+    cx.set_nontrivial((r - fl).abs() <= 1 || offnz >= 2);
+}
+
+/// `verdict_labels = false`: the caller rescales radius / coordinates and labels the final configuration itself.
+pub(crate) fn gen_int_round_opt<const N: usize>(t: &mut Tape, cx: &mut Cx, verdict_labels: bool) -> IntRound<N> {
     let mut c = [0i64; N];
     for i in 0..N {
         c[i] = if t.bool() { t.int(-GRID, GRID) } else { t.small_int(40) };
@@ -84,20 +109,9 @@ fn gen_int_round<const N: usize>(t: &mut Tape, cx: &mut Cx) -> IntRound<N> {
     };
     let r2 = r - r1;
     let offnz = (0..N).filter(|&i| p[i] != c[i]).count();
-    if d2 == r * r {
-        cx.label("tangent (d == r exactly)");
-    } else if d2 < r * r {
-        cx.label(if r - fl <= 1 { "just inside (r = floor(d)+1)" } else { "inside" });
-    } else {
-        cx.label(if fl - r <= 1 { "just outside (r = floor(d) or floor(d)-1)" } else { "outside" });
+    if verdict_labels {
+        label_verdict(cx, d2 as i128, r as i128, r1 as i128, r2 as i128, offnz);
     }
-    if r == 0 {
-        cx.label("zero radius");
-    }
-    if r1 == 0 || r2 == 0 {
-        cx.label("collision: one radius zero");
-    }
-    cx.set_nontrivial((r - fl).abs() <= 1 || offnz >= 2);
     IntRound { c, p, r, r1, r2, d2 }
 }
 
